@@ -73,6 +73,12 @@ CHECKS = {
         "Trusted: reference binder refprog::Env::bind (type import last-wins, built-in, same module, module imports first-wins).",
         "DESIGN.md §6 C11",
     ),
+    "C12": (
+        "crash/resource monitor: hostile inputs in worker child processes under catch_unwind, counting allocator with budget and hard cap, iteration bound from the hook trace, watchdog; parse-error position oracle",
+        "Feeds tens of thousands (quick) to hundreds of thousands (thorough) of inputs in 16 categories (token/byte soup, token-level mutations and splices of valid files, boundary integers in every numeric position, recursive and deeply nested types, odd identifiers, stray tokens, file-system faults, API sequences) to the real parser, SemanticState API and pyxis::build inside worker processes; a panic, abort, stack overflow, allocation beyond 64 MiB + 64 KiB per input byte (hard cap 1 GiB), more than items+1 resolution iterations, or a parse error without a correct file:line:col is a violation; a watchdog firing is inconclusive. Exploration.",
+        "Trusted: the counting global allocator of the harness; debug assertions and overflow checks enabled in the pyxis build under test; nesting depth limited to 1000 (inputs of a few kilobytes).",
+        "DESIGN.md §6 C12",
+    ),
     "C13": (
         "compiler-as-monitor: rustc --emit=metadata on assembled crates of generated accepted programs + nightly rustc for i686-pc-windows-msvc definitions + syn parse",
         "Assembles the emitted files of generated accepted multi-module programs (markers drawn independently of field types, cross-module references, inheritance, singletons, extern values, prologues/epilogues, dedicated marker/packed/singleton/discriminant cases) into crates mirroring the input tree with extern types supplied, and requires rustc to type-check them on the host and the definitions on i686-pc-windows-msvc. One-directional oracle: accepted => compiles. Exploration.",
